@@ -75,6 +75,17 @@ def candidates(rng, sz):
     cands.append(enum(did, [variant("EscUnit", ts="{{x}}"), variant("EscTuple", "tuple", [field("u8")], ts="a{{}}b"),
                             variant("EscNamed", "named", [field("u8", "val")], ser=["}}{{"])]))
     did += 1
+    # a literal that is just one placeholder: with a spec, hugged by escaped braces, on tuple and named variants
+    def sole(ident, kind, lit, spec):
+        v = variant(ident, kind, [field("u8", "x" if kind == "named" else "")], ts=lit)
+        v["ph"] = [dict(f=1, spec=spec)]
+        v["vals"] = [["7u8"], ["255u8"]]
+        return v
+    cands.append(enum(did, [sole("A", "tuple", "{0:>4}", ">4"), sole("B", "named", "{x:03}", "03"), sole("C", "tuple", "{{{0}}}", ""),
+                            sole("D", "tuple", "{0}}}", ""), sole("E", "named", "{{{x:>2}", ">2"), sole("F", "tuple", "{0}", "")]))
+    did += 1
+    cands.append(enum(did, [sole("A", "tuple", "{0:>4}", ">4"), sole("B", "named", "{x:03}", "03")], prefix="p"))
+    did += 1
     idents = ["Red", "Green", "Blue", "Cyan"]
     for k in range(sz["interp"] // 3):
         vs = [interp_variant(rng, idents[j], rng.choice(["tuple", "named"])) for j in range(3)]
